@@ -174,10 +174,10 @@ func c17stat(r *vlib.Rand) (os.FileMode, time.Time, string) {
 
 func verifC17run(c *vlib.Ctx) {
 	c.Rule("histories of 5-40 add/replace/remove on a BasicDirectory in block-estimation mode: names 0..300 B (dense around the 1->2 byte link-length varint boundary), CIDv0 and CIDv1 with 5 codecs x 5 hash functions x digest 0..64 B, Tsize at every varint length boundary up to 2^63-1, mode {unset, 0..07777, with type bits, type bits only} x mtime {unset, neg/0/pos seconds at varint boundaries} x nanos {0,1,..,999999999}; strata: fresh (NewBasicDirectory), fromnode (reload with NewBasicDirectoryFromNode mid-history), setmode (created in links/disabled mode, switched with SetSizeEstimationMode), dynamic (DynamicDirectory with small threshold: basic phases incl. after HAMT->Basic); after every op estimatedSize vs len(GetNode().RawData()); distinct = FNV of config+ops; non-trivial = history holds a replacement that changes the link's encoded size and a removal of a present name, and >=10 comparisons were made")
-	c.Cases("fresh", c.N(1200, 20000), func(k *vlib.Case) { c17history(k, "fresh") })
-	c.Cases("fromnode", c.N(700, 12000), func(k *vlib.Case) { c17history(k, "fromnode") })
-	c.Cases("setmode", c.N(400, 5000), func(k *vlib.Case) { c17history(k, "setmode") })
-	c.Cases("dynamic", c.N(700, 12000), func(k *vlib.Case) { c17history(k, "dynamic") })
+	c.Cases("fresh", c.N(1200, 40000), func(k *vlib.Case) { c17history(k, "fresh") })
+	c.Cases("fromnode", c.N(700, 25000), func(k *vlib.Case) { c17history(k, "fromnode") })
+	c.Cases("setmode", c.N(400, 10000), func(k *vlib.Case) { c17history(k, "setmode") })
+	c.Cases("dynamic", c.N(700, 25000), func(k *vlib.Case) { c17history(k, "dynamic") })
 }
 
 type c17entry struct {
